@@ -31,6 +31,17 @@ KWNAMES = ["k", "key", "method", "args", "has_out", "kwargs", "seed"]
 def KW(c): return {n: c for n in KWNAMES}
 
 
+# ... and so is the ORDER in which it fills the mapping in (keys added in data-dependent branches): a mapping is defined by its items,
+# not by its insertion order, so two rows of one batch may hand over the same names in different orders.  KWO is the rendering of
+# the spec's k for the row with context id c in which every name carries its own value (k tagged with the name: a value that
+# arrives under another name is seen) and the names are inserted rotated by c, every second row backwards - no two neighbouring
+# rows of a batch share an insertion order.  KW(c) and KWO(c) render the same abstract value k = c.
+def KWO(c):
+    r = c % len(KWNAMES); names = KWNAMES[r:] + KWNAMES[:r]
+    if c % 2: names = names[::-1]
+    return {n: (c if n == "k" else "%s=%d" % (n, c)) for n in names}
+
+
 # ... and the CONTAINER the learner hands them over in is its own business too: coba.primitives.Kwargs is Mapping[str, Any], so any
 # mapping is a kwargs payload - a plain dict (the default rendering), a dict subclass, a read-only view of the learner's own state,
 # a collections.UserDict, a user-defined collections.abc.Mapping, coba's own read-only HashableSparse.  Pure rendering of the
@@ -85,8 +96,9 @@ def actions_of(kind, nA):
 class FmtLearner:
     """Writes its intended answers in one format / layout.  Intention for the row with context id c:
     action index c mod nA, probability PROBS[c mod 3], pmf BASE rotated by c mod nA, kwargs {'k': c}."""
-    def __init__(self, fmt, kw, layout, nA, oh=False, scale=1, payload="dict"):
+    def __init__(self, fmt, kw, layout, nA, oh=False, scale=1, payload="dict", kwf=KW):
         self.mk = PAYLOADS[payload]   # the mapping type the kwargs are handed over in
+        self.kwf = kwf                # the rendering of the kwargs value (KW: one order, one value; KWO: per-row insertion order, per-name values)
         self.fmt = fmt; self.kw = kw; self.layout = layout; self.nA = nA; self.learned = []; self.calls = 0; self.oh = oh
         self.scale = scale   # PMFs as learners really produce them (rounded, float32): the entries sum to 1 only within the documented tolerance
 
@@ -110,12 +122,12 @@ class FmtLearner:
         batched = is_batch(context) or is_batch(actions)
         if batched and self.layout in ("none", "notbatch"): raise TypeError("this learner does not take batches")
         if not batched:
-            v = self.row(context, actions); kw = self.mk(KW(context))
+            v = self.row(context, actions); kw = self.mk(self.kwf(context))
             if not self.kw: return v
             if isinstance(v, tuple) and not self.fmt.endswith("*") and self.fmt == "AP": return (v[0], v[1], kw)
             return (v, kw)
         rows = [self.row(c, a) for c, a in zip(context, actions)]
-        kws = [self.mk(KW(c)) for c in context]
+        kws = [self.mk(self.kwf(c)) for c in context]
         if self.layout == "row":
             if not self.kw: return rows
             out = []
@@ -176,6 +188,16 @@ def run(ctx):
                     if bad:
                         sig, what = bad
                         ctx.violation(sig + ":kwargs-mapping", "%s   case=%s kind=%s kwargs handed over in a %s" % (what, json.dumps(cs, sort_keys=True), kind, payload), dict(case=cs, kind=kind, payload=payload, expected=c["expected"]))
+            # ... and with the kwargs of every row filled in in that row's own key order, every name carrying its own value (KWO), in a plain
+            # dict and in a user-defined read-only mapping
+            if kw and kind in PAYLOAD_KINDS:
+                for payload in ("dict", "usermap"):
+                    for vary in (False,):
+                        ctx.case(json.dumps([cs, kind, vary, "kwargs-order", payload], sort_keys=True))
+                        bad = one(SafeLearner, cs, c["expected"], kind, vary, 1, payload, KWO)
+                        if bad:
+                            sig, what = bad
+                            ctx.violation(sig + ":kwargs-order", "%s   case=%s kind=%s action-sets=%s kwargs of each row inserted in the row's own key order, handed over in a %s" % (what, json.dumps(cs, sort_keys=True), kind, "A,B,A" if vary else "A,A,A", payload), dict(case=cs, kind=kind, vary=vary, payload=payload, kwargs="KWO", expected=c["expected"]))
             # the PMF a learner states is reported as stated, also when its entries sum to 1 only within the tolerance (the draw is by
             # share of the total, which for a common factor is the draw of the exact PMF)
             if fmt.rstrip("*") == "PM" and not cs.get("oh") and nA > 1 and kind in ("str", "int1x"):
@@ -233,10 +255,10 @@ def through_evaluator(SequentialCB, CobaContext, cs, expected, how, payload="dic
     return None
 
 
-def one(SafeLearner, cs, expected, kind, vary=False, scale=1, payload="dict"):
+def one(SafeLearner, cs, expected, kind, vary=False, scale=1, payload="dict", kwf=KW):
     fmt, kw, layout, nA, bs, seed = cs["fmt"], cs["kw"], cs["layout"], cs["nA"], cs["bsize"], cs["seed"]
     acts_a = actions_of(kind, nA); acts_b = alt_actions_of(kind, nA)
-    lrn = FmtLearner(fmt, kw, layout, nA, cs.get("oh", False), scale, payload)
+    lrn = FmtLearner(fmt, kw, layout, nA, cs.get("oh", False), scale, payload, kwf)
     sl = SafeLearner(lrn, seed)
     exp_by_call = {}
     for e in expected: exp_by_call.setdefault(e["call"], []).append(e)
@@ -255,7 +277,7 @@ def one(SafeLearner, cs, expected, kind, vary=False, scale=1, payload="dict"):
             return ("%s:%s:raises:%s" % (fmt, layout, type(e).__name__), "call %d raised %s: %s" % (call, type(e).__name__, str(e)[:150]))
         if len(A) != len(rows): return ("%s:%s:batch-size" % (fmt, layout), "call %d returned %d actions for %d rows" % (call, len(A), len(rows)))
         for i, e in enumerate(rows):
-            want_a = acts[e["a"]]; want_p = None if e["p"] == -1 else e["p"] / 1000 * scale; want_k = {} if e["k"] == -1 else KW(e["k"])
+            want_a = acts[e["a"]]; want_p = None if e["p"] == -1 else e["p"] / 1000 * scale; want_k = {} if e["k"] == -1 else kwf(e["k"])
             if not any(A[i] == x for x in acts): return ("%s:%s:not-an-offered-action" % (fmt, layout), "call %d row %d: %r is not one of the offered actions %r" % (call, i + 1, A[i], acts))
             if A[i] != want_a: return ("%s:%s:wrong-action" % (fmt, layout), "call %d row %d: action %r, the learner named (or the seed draws) %r" % (call, i + 1, A[i], want_a))
             if (P[i] is None) != (want_p is None) or (want_p is not None and abs(P[i] - want_p) > 1e-12):
